@@ -165,8 +165,11 @@ def worstSlow (tr : Trace) : List Json :=
       let bad := (pairs pts).filter (fun ab => ab.2 > ab.1 + slowLimit S N mi)
       (bad.take 1).map (fun ab => jarr [jnat i, jnat p, jnat ab.1, jnat ab.2, jnat (slowLimit S N mi)])))
 
+/-- diagnostics (glue): the first offending call of every (module, function), at most four -/
 def badNoPoll (tr : Trace) : List Json :=
-  ((tr.evs.filter (fun e => !decide (NoPollNeverRead { tr with evs := [e] }))).take 2).map eventJson
+  let bad := tr.evs.filter (fun e => !decide (NoPollNeverRead { tr with evs := [e] }))
+  let firsts := bad.foldl (fun acc e => if acc.any (fun x => x.m = e.m ∧ x.f = e.f) then acc else acc ++ [e]) []
+  (firsts.take 4).map eventJson
 
 def handle (j : Json) : R Json := do
   let k ← fldStr j "k"
